@@ -10,6 +10,9 @@ def dispatch_run(profile, mask, dmask, nq, nt, extra=None):
 def build_run(nq, nt, profile="build"):
     return dict(kind="build", profile=profile, mask="11111110", n_quick=nq, n_thorough=nt, extra=[])
 
+def complete_run(nq, nt):
+    return dict(kind="complete", profile="complete", mask="11111110", n_quick=nq, n_thorough=nt, extra=[])
+
 def tok_run(nq_rand, nt_rand, lq=3, lt=5):
     return dict(kind="tok", profile="tok", mask="11111110", n_quick=nq_rand, n_thorough=nt_rand, shards=1,
                 extra=["-len", str(lq)], extra_thorough=["-len", str(lt)])
@@ -60,6 +63,12 @@ PROPS = {
         runs=[dispatch_run("dispatch", "11000000", "100110", 4000, 200000), build_run(3000, 100000)],
         coq_sample=8,
         rule="trees with required options (own/inherited, with/without custom message) and help option/command at every level; non-trivial = a required option was missing or help was requested",
+    ),
+    "C17": dict(
+        runs=[complete_run(5000, 200000), build_run(1500, 50000)],
+        coq_sample=10,
+        rule="command trees with aliases, suggested/valid values, value and argument completion functions, wrappers and help; COMP_LINE = program name + 0-4 earlier words that mostly parse + a partial last word (option prefix, --name=prefix, command prefix, word, empty with one or two trailing blanks), bash and zsh targets, bash's three arguments; stdout, Writer, exit code and command function counter compared; non-trivial = at least one earlier word and a non-empty candidate list",
+        assumptions=["the completion functions are drawn from a described family of four (constant list, prefix filter, echo of the partial word / number of previous arguments, by target) implemented identically in Go and in Gallina; the theorems quantify over arbitrary functions"],
     ),
     "C18": dict(
         runs=[dispatch_run("help", "00000000", "000011", 3000, 100000), dispatch_run("dispatch", "00000000", "000011", 2000, 100000)],
